@@ -1575,6 +1575,51 @@ func ruleExpire(r *Report) {
 			}, 8)
 		}
 		hx.Check(ok, "column.NewCollection/vacuum", r.P.Pos(fn.Pos()), "go vacuum(ctx, options.Vacuum) once", "the cleanup goroutine is not started exactly once with the configured interval")
+		// … and "configured" means the caller's: some store into the Vacuum field of an Options value
+		// takes the Vacuum field of another Options value, one that comes from the opts parameter
+		fromParam := func(base ssa.Value) bool {
+			isOpts := func(v ssa.Value) bool {
+				p, isP := v.(*ssa.Parameter)
+				if !isP {
+					return false
+				}
+				sl, isSl := p.Type().Underlying().(*types.Slice)
+				return isSl && isNamed(sl.Elem(), ModPath, "Options")
+			}
+			if dependsOn(base, isOpts, 6) {
+				return true
+			}
+			found := false
+			var refs []ssa.Instruction
+			if rr := base.Referrers(); rr != nil {
+				refs = *rr
+			}
+			for _, ref := range refs {
+				if st, isSt := ref.(*ssa.Store); isSt && st.Addr == base && dependsOn(st.Val, isOpts, 6) {
+					found = true
+				}
+			}
+			return found
+		}
+		merged := false
+		deepVisit(fn, func(ins, _ ssa.Instruction) {
+			st, isSt := ins.(*ssa.Store)
+			if !isSt {
+				return
+			}
+			dst, isF := fieldOf(st.Addr)
+			if !isF || dst.Struct != "column.Options" || dst.Field != "Vacuum" {
+				return
+			}
+			src, isL := loadedField(norm(st.Val))
+			if !isL || src.Struct != "column.Options" || src.Field != "Vacuum" || sameExpr(src.X, dst.X) {
+				return
+			}
+			if fromParam(src.X) {
+				merged = true
+			}
+		})
+		hx.Check(merged, "column.NewCollection/interval-option", r.P.Pos(fn.Pos()), "options.Vacuum := the caller's Vacuum", "the caller's cleanup interval (Options.Vacuum) is not copied into the effective options: the cleanup runs at the default interval whatever was configured")
 	}
 	if vac != nil {
 		// select on ctx.Done() returns
